@@ -31,7 +31,7 @@ let n_of_dec s = n_of_int64 (Int64.of_string ("0u" ^ s))
 let dec_of_n x = Printf.sprintf "%Lu" (int64_of_n x)
 let bytes_of_string (s : string) : n list = List.init (String.length s) (fun i -> n_of_int (Char.code s.[i]))
 let string_of_bytes (l : n list) : string = String.concat "" (List.map (fun c -> String.make 1 (Char.chr (int_of_n c land 255))) l)
-let unhex s = String.init (String.length s / 2) (fun i -> Char.chr (int_of_string ("0x" ^ String.sub s (2 * i) 2)))
+let unhex s = try String.init (String.length s / 2) (fun i -> Char.chr (int_of_string ("0x" ^ String.sub s (2 * i) 2))) with _ -> s
 let tohex s = String.concat "" (List.init (String.length s) (fun i -> Printf.sprintf "%02x" (Char.code s.[i])))
 
 (* ---------- keys ---------- *)
